@@ -215,6 +215,11 @@ int w_vm_run_sqf_at(void* p, const char* code, size_t n, const char* phys, const
     context->push_frame({ v->rt->default_value_scope(), set.value() });
     return (int)v->rt->execute(runtime::action::start);
 }
+void w_vm_add_pbo(void* p, const char* path)
+{
+    auto* io = dynamic_cast<sqf::fileio::impl_default*>(&((vm_t*)p)->rt->fileio());
+    if (io) io->add_pbo_mapping(std::filesystem::path(std::string(path)));
+}
 // ---- value construction / equality / hashing kernels (value::operator==, data::equals, std::hash<value>)
 const value* w_val_new_scalar(float f) { return new value(f); }
 const value* w_val_new_bool(int b) { return new value(b != 0); }
